@@ -749,10 +749,11 @@ def _decode_packets(fmt: str, pkts, prefix=""):
     return out
 
 
-def check_roundtrip(m, payload, fast, fmt, prefix):
-    """None or a witness dict: encode the real message `m` in `fmt`, decode the packets, compare; check the sizes"""
+def check_roundtrip(m, payload, fast, fmt, prefix, enc=None):
+    """None or a witness dict: encode the real message `m` in `fmt`, decode the packets, compare; check the sizes.
+    `enc`: a long-lived encoder object that has already encoded other messages (default: a new one)"""
     from nmea2000.encoder import NMEA2000Encoder
-    enc = NMEA2000Encoder()
+    enc = enc or NMEA2000Encoder()
     pdu1 = ((m.PGN >> 8) & 0xFF) < 240
     exp = (m.PGN, m.source, m.destination if pdu1 else 255, m.priority)
     base = {"kind": "roundtrip", "fmt": fmt, "pgn": m.PGN, "payload": payload.hex(), "src": m.source, "dst": m.destination,
@@ -958,6 +959,32 @@ def search(ctx):
             for fmt in ("ebyte", "usb", "yd", "acti"):
                 add(check_roundtrip(m, payload, fast, fmt, rng.choice(PREFIX[fmt])))
             descs.append(_desc(m, payload))
+    # ONE long-lived encoder object per format (what a gateway client keeps): the same message kind to different
+    # destinations / from different sources / with different priorities, one after the other
+    from nmea2000.encoder import NMEA2000Encoder
+    iso_pl = bytes([0x00, 0xEE, 0x00])
+    for fmt in ("ebyte", "usb", "yd", "acti"):
+        enc = NMEA2000Encoder()
+        seq = [(1, 255, 6), (1, 36, 6), (1, 40, 6), (1, 0, 6), (2, 40, 6), (2, 40, 3), (1, 255, 6), (1, 36, 6)]
+        seq += [(rng.getrandbits(8), rng.getrandbits(8), rng.getrandbits(3)) for _ in range(ctx.n(6, 40))]
+        for k, (src, dst, prio) in enumerate(seq):
+            for pgn, pl in ((59904, iso_pl),) + (((126720, None),) if k % 3 == 0 else ()):
+                if pl is None:
+                    cand = [(m, p) for m, p, f in msgs if m.PGN == pgn]
+                    if not cand:
+                        continue
+                    m0, pl = cand[0]
+                m = _msg_from(pgn, pl, src, dst, prio)
+                if m is None:
+                    continue
+                m.source, m.destination, m.priority = src, dst, prio
+                w = check_roundtrip(m, pl, False, fmt, PREFIX[fmt][0], enc=enc)
+                if w:
+                    w["key"] += ":long-lived-encoder"
+                    w["kind"] = "roundtrip-seq"
+                    w["history"] = [list(x) for x in seq[:k + 1]]
+                    w["what"] += f" (after {k} earlier messages through the same encoder object)"
+                    add(w)
     # arbitrary frames, at the level of the tuple handed to `_decode`
     for _ in range(ctx.n(300, 3000)):
         pgn, src, dst, prio = gen_hdr(rng)
@@ -1007,6 +1034,16 @@ def replay(ctx, data):
             return True
         m.source, m.destination, m.priority = w["src"], w["dst"], w["prio"]
         r = check_roundtrip(m, bytes.fromhex(w["payload"]), False, w["fmt"], w.get("prefix", ""))
+    elif w.get("kind") == "roundtrip-seq":
+        from nmea2000.encoder import NMEA2000Encoder
+        enc = NMEA2000Encoder()
+        pl = bytes.fromhex(w["payload"])
+        for src, dst, prio in w["history"]:
+            m = _msg_from(w["pgn"], pl, src, dst, prio)
+            if m is None:
+                continue
+            m.source, m.destination, m.priority = src, dst, prio
+            r = check_roundtrip(m, pl, False, w["fmt"], w.get("prefix", ""), enc=enc) or r
     elif w.get("kind") == "frame":
         r = check_frame(w["fmt"], tuple(w["hdr"]), bytes.fromhex(w["data"]), w.get("prefix", ""))
     elif w.get("kind") == "checksum":
